@@ -60,6 +60,7 @@ def make_input(kinds, r):
 def run_one(k, cfg):
     kinds, strategy, jobs, explicit = cfg[:4]
     cc = len(cfg) > 4 and cfg[4]
+    killgold = len(cfg) > 5 and cfg[5]
     r = random.Random(k)
     text = make_input(kinds, r)
     if cc:
@@ -78,6 +79,12 @@ def run_one(k, cfg):
         opts += ['--timeout', str(tl)]
     if 'alloc' in kinds or 'mmap' in kinds or 'mmapfast' in kinds:
         opts += ['--memout', '64']
+    if killgold:
+        # the golden run (and every accepted candidate) dies from SIGKILL and
+        # the output is ignored: a candidate that runs into the time limit is
+        # killed by ddSMT - that is not "ended the same way"
+        spec += ';killaccept=1'
+        opts += ['--ignore-output']
     if cc:
         spec += ';sleepif=slow1:1300'
         opts += ['-c', f'{FAULTCMD} {flog}.cc keep=check-sat']
@@ -126,7 +133,8 @@ def run_one(k, cfg):
             continue
     res = {
         'cfg': {'kinds': list(kinds), 'strategy': strategy, 'jobs': jobs,
-                'explicit': explicit, 'cc': bool(cc)},
+                'explicit': explicit, 'cc': bool(cc),
+                'killgold': bool(killgold)},
         'text': text, 'status': p.returncode, 'timed_out': timed_out,
         'wall': wall, 'stderr': err.decode('utf-8', 'replace')[-1500:],
         'left': left,
@@ -178,7 +186,7 @@ def main():
         with open(a.replay) as f:
             c = json.load(f)['replay']['cfg']
         cfgs = [(tuple(c['kinds']), c['strategy'], c['jobs'], c['explicit'],
-                 c.get('cc', False))]
+                 c.get('cc', False), c.get('killgold', False))]
     elif a.tier == 'quick':
         explicit = [c for c in cfgs if c[3]]
         derived = [c for c in cfgs if not c[3] and len(c[0]) == 1]
@@ -193,6 +201,13 @@ def main():
         cfgs += [(('hang', ), 'hybrid', 2, False, True),
                  (('spin', ), 'ddmin', 1, False, True)][
                      :1 if a.tier == 'quick' else 2]
+    if not a.replay:
+        # a golden run that dies from SIGKILL, candidates that hang or spin
+        cfgs += [(('hang', ), 'ddmin', 1, True, False, True),
+                 (('spin', 'hang'), 'hierarchical', 2, True, False, True),
+                 (('hang', ), 'hybrid', 2, False, False, True)]
+    if os.environ.get('VERIF_C10_ONLY') == 'killgold':
+        cfgs = [c for c in cfgs if len(c) > 5 and c[5]]
     from concurrent.futures import ThreadPoolExecutor
     runs.calibrate()
     with ThreadPoolExecutor(5) as ex:
